@@ -324,7 +324,32 @@ def rule_no_result_set(ctx):
     ctx.floor("C05.d paths", n, 4)
 
 
+def rule_pandas_all(ctx):
+    """C05.f: fetch_pandas_all hands out the whole result table (it agrees with rowcount whatever was fetched before)."""
+    prog = ctx.prog
+    if not prog.has_fn("cursor", "FakeSnowflakeCursor.fetch_pandas_all"):
+        return
+    fn = prog.fn("cursor", "FakeSnowflakeCursor.fetch_pandas_all")
+    loc = prog.mod("cursor").loc(fn)
+    n = 0
+    for idx in (Const(None), Sym("INDEX", typ="int", notnone=True)):
+        for p, cur in _run(prog, "fetch_pandas_all", [], _table, idx):
+            if p.outcome != "return":
+                continue
+            n += 1
+            v = p.value
+            ok = isinstance(v, Sym) and v.origin and v.origin[0] == "method" and v.origin[2] == "to_pandas" and \
+                isinstance(v.origin[1], Obj) and v.origin[1].name == "TABLE"
+            ctx.ob("C05.f", f"fetch_pandas_all (fetch index {'set' if isinstance(idx, Sym) else 'unset'}) converts the whole result table", ok, loc, tagof(v)[:80])
+            if not ok:
+                ctx.violation("C05.f", "cursor", "FakeSnowflakeCursor.fetch_pandas_all", "fetch_pandas_all does not convert the whole table", loc,
+                              f"fetch_pandas_all returns `{tagof(v)[:80]}`, not the whole result table: after some rows were fetched row-wise the "
+                              f"DataFrame no longer agrees with rowcount and the rows of the result")
+    ctx.floor("C05.f paths", n, 2)
+
+
 RULES = [
+    ("C05.f", rule_pandas_all, ("quick", "thorough")),
     ("C05.a", rule_reset, ("quick", "thorough")),
     ("C05.b", rule_positional, ("quick", "thorough")),
     ("C05.c", rule_slice, ("quick", "thorough")),
